@@ -1,6 +1,7 @@
 package kit
 
 import (
+	"context"
 	"math/rand/v2"
 	"runtime"
 	"sync"
@@ -137,4 +138,30 @@ func (h *HookCounter) Get(p string) int {
 	h.mu.Lock()
 	defer h.mu.Unlock()
 	return h.m[p]
+}
+
+// expiringCtx is a context that ends with context.DeadlineExceeded when
+// the monitor says so: a deadline without a timer, so that scenarios
+// decided at quiescence can still exercise "the deadline passed".
+type expiringCtx struct {
+	context.Context
+	done chan struct{}
+	once sync.Once
+}
+
+func (c *expiringCtx) Done() <-chan struct{} { return c.done }
+func (c *expiringCtx) Err() error {
+	select {
+	case <-c.done:
+		return context.DeadlineExceeded
+	default:
+		return nil
+	}
+}
+
+// NewExpiringContext returns a context and the function that makes its
+// deadline pass.
+func NewExpiringContext() (context.Context, func()) {
+	c := &expiringCtx{Context: context.Background(), done: make(chan struct{})}
+	return c, func() { c.once.Do(func() { close(c.done) }) }
 }
